@@ -24,6 +24,8 @@ CONSTANTS D,            \* directory ids
           FIX_READD,    \* F15: a removed directory is re-added at once when it exists again
           FIX_STALE,    \* F13: a goroutine whose watcher is no longer current does nothing
           FIX_RENAMEDIR, \* F14: a Rename event for a tracked directory is treated like its removal
+          QMax,          \* length of the kernel's event queue per watcher (fs.inotify.max_queued_events)
+          FIX_OVERFLOW,  \* F20: the overflow notice makes the watcher goroutine renew its watches and rescan
           FIX_RETRY,     \* F19: a scan that ran out of descriptors is repeated by the next query
           FIX_SCANWATCHED, \* F18: a rescan leaves out directories that could not be watched because they did not exist
           RECORD        \* TRUE: keep the history of actions (for behaviour emission); FALSE: hist stays empty
@@ -75,8 +77,11 @@ Rec(x) == hist' = IF RECORD THEN Append(hist, x) ELSE hist
 \* has not been read yet is coalesced with it (inotify(7); observed on the real kernel: two files
 \* moved onto the same name give one IN_MOVED_TO when the first is still unread)
 Coalesce(q, evs) == IF Len(q) > 0 /\ Len(evs) > 0 /\ q[Len(q)] = evs[1] THEN q \o Tail(evs) ELSE q \o evs
+\* a full queue takes one more entry, the overflow notice (IN_Q_OVERFLOW), and drops what follows
+OvEv == [op |-> "overflow", d |-> "", n |-> ""]
+Bound(q) == IF Len(q) <= QMax THEN q ELSE Append(SubSeq(q, 1, QMax), OvEv)
 Emit(d, g, evs) ==
-  kq' = [w \in Wids |-> IF wstate[w] = "open" /\ watches[w][d] = g /\ g # 0 THEN Coalesce(kq[w], evs) ELSE kq[w]]
+  kq' = [w \in Wids |-> IF wstate[w] = "open" /\ watches[w][d] = g /\ g # 0 THEN Bound(Coalesce(kq[w], evs)) ELSE kq[w]]
 
 FsBudget == fsops < MaxFsOps /\ fsops' = fsops + 1
 CacheUnch == UNCHANGED <<cur, auto, cdirs, wstate, tracked, ub, infl, gor, errs, idx, short, confs, obs>>
@@ -167,8 +172,10 @@ ReaderFetch(w) ==
 -----------------------------------------------------------------------------
 (* the cache's watcher goroutine: watch.watch() *)
 
+\* (the overflow notice arrives on the Errors channel, which the goroutine used to drain without looking)
 Relevant(e) == /\ (e.op # "create" \/ FIX_CREATE)
                /\ (e.op \in {"create", "write"} => e.n = SpecName)
+               /\ (e.op = "overflow" => FIX_OVERFLOW)
 
 \* receive from Events and filter; with a relevant event it heads for the mutex
 GorRecv(w) ==
@@ -228,7 +235,8 @@ GorHandle(w) ==
      ELSE /\ LET e == gor[w].ev
                  dirgone == /\ e.n = "." /\ tracked[e.d] = "t"
                             /\ (e.op = "remove" \/ (FIX_RENAMEDIR /\ e.op = "rename"))
-             IN ApplyUpdate(w, IF dirgone THEN {e.d} ELSE {})
+                 \* after an overflow every watch is renewed: Remove + Add of all directories in the tracked map
+             IN ApplyUpdate(w, IF e.op = "overflow" THEN { d \in D : tracked[d] # "no" } ELSE IF dirgone THEN {e.d} ELSE {})
           /\ gor' = [gor EXCEPT ![w] = [pc |-> "scan", ev |-> NoEv]]
   /\ UNCHANGED <<exists, gen, files, away, cur, auto, cdirs, wstate, kq, ub, infl, idx, short, fsops, confs, obs>>
   /\ Rec(Act("handle", gor[w].ev.d, gor[w].ev.n, 0, w, {}, FALSE))
